@@ -34,3 +34,16 @@ From OTR Require Import Bytes.Sexp Bytes.SexpProofs.
 Theorem C13_sexp_reader_terminates : forall l, sexp_read l <> None.
 Proof. exact sexp_read_total. Qed.
 Print Assumptions C13_sexp_reader_terminates.
+
+(* ---- the protocol logic, over every history ----
+   In every state a conversation can reach, whatever was sent to it and whatever the user did, the key management never
+   dereferences a key that is not there: looking up session keys, accepting a data message and building one never
+   reach the panic outcome (in the code: a nil D-H private key or nil peer value handed to the big-number routines). *)
+From OTR Require Import Proto.Keys Proto.Conv Proto.Lifecycle Proto.NoPanic.
+Theorem C13_key_management_never_panics : forall who pol key h,
+  let c := fst (run_calls (conv_init who pol key) h) in
+  (forall o t, sessionKeysFor (c_keys c) o t <> Panic) /\
+  (forall d x, recvDataMsg (c_keys c) d x <> Panic) /\
+  (forall hd flag pl, genDataMsg (c_keys c) hd flag pl <> Panic).
+Proof. exact key_management_never_panics. Qed.
+Print Assumptions C13_key_management_never_panics.
